@@ -116,18 +116,105 @@ def rule_r1(repo, run):
                           "splicer_path must be '' or join(names) + %r, got %s" % (sep, um.seg(v)), um.loc(node))
 
 
+def _user_filter(um, name):
+    """What `WrapperMixin.<name>(lines)` does to the text of user code.  Returns None when the method is not a per-line
+    filter that keeps the characters of every line, else dict(tabs=..., literal=..., unmarked=[...]):
+      tabs      the tabs of a line are expanded to blanks (a tab is white space in user code),
+      literal   the line is prefixed with the literal marker "@" of write_lines (which removes it again),
+      unmarked  the conditions under which a line is *not* marked.
+    Two shapes are understood: `return [line.expandtabs() ... for line in lines]` and a loop that appends every line
+    (or every `split("\\n")` piece of it) to the list it returns."""
+    fq = "WrapperMixin.%s" % name
+    if not um.has_func(fq):
+        return None
+    fn = um.func(fq)
+    body = [st for st in fn.body if not (isinstance(st, ast.Expr) and isinstance(st.value, ast.Constant))]
+    if len(body) == 1 and isinstance(body[0], ast.Return) and isinstance(body[0].value, ast.ListComp):
+        elt = ast.unparse(body[0].value.elt)
+        if re.fullmatch(r"line\.expandtabs\(\)( if isinstance\(line, str\) else line)?", elt):
+            return dict(tabs=True, literal=False, unmarked=["always"])
+        return None
+    if any(isinstance(x, (ast.Continue, ast.Break)) for x in ast.walk(fn)):
+        return None
+    rets = [x for x in ast.walk(fn) if isinstance(x, ast.Return)]
+    if len(rets) != 1 or not isinstance(rets[0].value, ast.Name) or body[-1] is not rets[0]:
+        return None
+    out = rets[0].value.id
+    loops = [st for st in body if isinstance(st, ast.For)]
+    params = [a.arg for a in fn.args.args if a.arg != "self"]
+    if len(loops) != 1 or len(params) != 1 or not pyflow.is_name(loops[0].iter, params[0]) or not isinstance(loops[0].target, ast.Name):
+        return None
+    info = dict(tabs=False, literal=False, unmarked=[])
+
+    def text_of(expr, var):
+        """expr is `var` or `var.expandtabs()`"""
+        if pyflow.is_name(expr, var):
+            return True
+        if isinstance(expr, ast.Call) and isinstance(expr.func, ast.Attribute) and expr.func.attr == "expandtabs" \
+                and pyflow.is_name(expr.func.value, var) and not expr.args:
+            info["tabs"] = True
+            return True
+        return False
+
+    def keeps(stmts, var):
+        """every path through stmts appends the (text of) var exactly once and changes it only in the accepted ways"""
+        appended = False
+        for st in stmts:
+            if isinstance(st, ast.Assign) and len(st.targets) == 1 and pyflow.is_name(st.targets[0], var):
+                v = st.value
+                if text_of(v, var) and not pyflow.is_name(v, var):
+                    continue
+                if isinstance(v, ast.BinOp) and isinstance(v.op, ast.Add) and pyflow.const_str(v.left) == "@" and pyflow.is_name(v.right, var):
+                    return None          # a marker outside a condition is handled by the If arm below
+                return None
+            if isinstance(st, ast.Expr) and isinstance(st.value, ast.Call) and ast.unparse(st.value.func) == "%s.append" % out \
+                    and len(st.value.args) == 1 and pyflow.is_name(st.value.args[0], var):
+                if appended:
+                    return None
+                appended = True
+                continue
+            if isinstance(st, ast.If):
+                # `if <cond>: var = "@" + var` (no else): the marker
+                if not st.orelse and len(st.body) == 1 and isinstance(st.body[0], ast.Assign) \
+                        and pyflow.is_name(st.body[0].targets[0], var):
+                    v = st.body[0].value
+                    if isinstance(v, ast.BinOp) and isinstance(v.op, ast.Add) and pyflow.const_str(v.left) == "@" and pyflow.is_name(v.right, var):
+                        info["literal"] = True
+                        info["unmarked"].append("not (%s)" % re.sub(r"\b%s\b" % re.escape(var), "LINE", ast.unparse(st.test)))
+                        continue
+                    return None
+                a, b = keeps(st.body, var), keeps(st.orelse, var)
+                if a is None or b is None or a != b:
+                    return None
+                if a:
+                    if appended:
+                        return None
+                    appended = True
+                continue
+            if isinstance(st, ast.For) and isinstance(st.target, ast.Name) and isinstance(st.iter, ast.Call) \
+                    and isinstance(st.iter.func, ast.Attribute) and st.iter.func.attr == "split" \
+                    and [pyflow.const_str(x) for x in st.iter.args] == ["\n"] and text_of(st.iter.func.value, var) and not st.orelse:
+                # the pieces of the line, each appended: write_lines splits at the same character
+                if keeps(st.body, st.target.id) is not True or appended:
+                    return None
+                appended = True
+                continue
+            return None
+        return appended
+
+    if keeps(loops[0].body, loops[0].target.id) is not True:
+        return None
+    if not info["literal"]:
+        info["unmarked"] = ["always"]
+    return info
+
+
 def _unwrap_tab_filter(um, node):
-    """`self._user_code(x)` -> x when the method does nothing but turn the tabs of each line into blanks (the text is
-    otherwise unchanged: the property is about the characters of the user's code, a tab is white space)"""
+    """`self._user_code(x)` -> x when the method keeps the characters of each line (tabs become blanks, the literal marker
+    of write_lines may be put in front: the property is about the characters of the user's code as they are written)"""
     if isinstance(node, ast.Call) and isinstance(node.func, ast.Attribute) and pyflow.is_name(node.func.value, "self") and len(node.args) == 1:
-        fq = "WrapperMixin.%s" % node.func.attr
-        if um.has_func(fq):
-            fn = um.func(fq)
-            body = [st for st in fn.body if not (isinstance(st, ast.Expr) and isinstance(st.value, ast.Constant))]
-            if len(body) == 1 and isinstance(body[0], ast.Return) and isinstance(body[0].value, ast.ListComp):
-                elt = ast.unparse(body[0].value.elt)
-                if re.fullmatch(r"line\.expandtabs\(\)( if isinstance\(line, str\) else line)?", elt):
-                    return node.args[0]
+        if _user_filter(um, node.func.attr) is not None:
+            return node.args[0]
     return node
 
 
@@ -446,9 +533,41 @@ def rule_r6(repo, run):
                 run.ok(R, "util.WrapperMixin.write_lines:default:%s" % sl,
                        sample=dict(slice=sl, under=cond, note="line begins with a metacharacter: outside the property's domain"))
             else:
-                run.check(R, "util.WrapperMixin.write_lines:default:%s" % sl, False,
+                # the trailing character is a directive of *generated* lines; it is taken from a user's line unless every
+                # user line reaches write_lines marked as literal (`@`), which this arm never sees
+                w = um.func("WrapperMixin._create_splicer")
+                filters = []
+                for c in ast.walk(w):
+                    if isinstance(c, ast.Call) and (pyflow.call_name(c) or "").endswith(".extend") and c.args \
+                            and "default" not in [x.id for x in ast.walk(c.args[0]) if isinstance(x, ast.Name)]:
+                        a = c.args[0]
+                        filters.append(_user_filter(um, a.func.attr) if isinstance(a, ast.Call) and isinstance(a.func, ast.Attribute) else None)
+                harmless = {"not (LINE and LINE[0] != '#')", "not (LINE != '' and LINE[0] != '#')", "not (len(LINE) > 0 and LINE[0] != '#')",
+                            "not (LINE and (not LINE.startswith('#')))"}
+                marked = bool(filters) and all(f_ is not None and f_["literal"] and set(f_["unmarked"]) <= harmless for f_ in filters)
+                # the `#` arm of write_lines writes the line as it is
+                hash_arm = [i for i in ast.walk(f) if isinstance(i, ast.If) and um.seg(i.test) in ("%s[0] == '#'" % var, '%s[0] == "#"' % var)]
+                hash_ok = len(hash_arm) == 1 and not any(isinstance(x, ast.Subscript) and isinstance(x.slice, ast.Slice)
+                                                         for st in hash_arm[0].body for x in ast.walk(st))
+                # documentation text is the user's as well
+                dl = um.func("WrapperMixin.write_doxygen_lines")
+                apps = [c for c in ast.walk(dl) if isinstance(c, ast.Call) and (pyflow.call_name(c) or "").endswith(".append") and c.args]
+                def _leads_literal(e):
+                    while isinstance(e, ast.BinOp) and isinstance(e.op, ast.Add):
+                        e = e.left
+                    return (pyflow.const_str(e) or "").startswith("@")
+                doc_ok = bool(apps) and all(_leads_literal(c.args[0]) for c in apps)
+                why = []
+                if not marked:
+                    why.append("the splicer lines are not all marked literal (%s)" % [None if f_ is None else f_["unmarked"] for f_ in filters])
+                if not hash_ok:
+                    why.append("the `#` arm of write_lines does not write the line as it is")
+                if not doc_ok:
+                    why.append("write_doxygen_lines appends documentation text without the literal marker")
+                run.check(R, "util.WrapperMixin.write_lines:default:%s" % sl, marked and hash_ok and doc_ok,
                           "a line that does not start with a metacharacter still loses its last character when "
-                          "%s: user code such as `x = a +` is altered" % (cond[:1] or ["?"])[0], um.loc(node))
+                          "%s: user code such as `x = a +` is altered; %s" % ((cond[:1] or ["?"])[0], "; ".join(why)), um.loc(node),
+                          sample=dict(slice=sl, filters=filters))
     # the splicer contents enter the output list as they are
     w = um.func("WrapperMixin._create_splicer")
     ext = [c for c in ast.walk(w) if isinstance(c, ast.Call) and (pyflow.call_name(c) or "").endswith(".extend")]
@@ -474,8 +593,9 @@ def rule_r6b(repo, run):
             callee = arg.func.attr if isinstance(arg.func, ast.Attribute) else getattr(arg.func, "id", "")
             fq = "WrapperMixin.%s" % callee
             if um.has_func(fq):
+                flt = _user_filter(um, callee)
                 body = ast.unparse(um.func(fq))
-                ok = "expandtabs" in body or "replace('\\t'" in body
+                ok = flt["tabs"] if flt is not None else ("expandtabs" in body or "replace('\\t'" in body)
         run.check(R, "util.WrapperMixin._create_splicer:user-code:tabs@%s" % re.sub(r"\s+", "", ast.unparse(arg))[:30], ok,
                   "user code is added to the output as it is (`%s`): a tab in it is the layout language's break hint and is deleted "
                   "when the line is written - `if (a)<TAB>return<TAB>1;` becomes `if (a)return1;`" % ast.unparse(c), um.loc(c))
